@@ -179,4 +179,21 @@ PROPS = {
         "components": {"real": ["cron.Cron, cron.CronBroadcaster (real goroutines, fake timers)", "crolt.Cron over a real Bolt file", "gorhill/cronexpr"], "stub": ["fake clock of testing/synctest", "http.DefaultClient transport stub recording crolt deliveries"]},
         "assumptions": ["operations never coincide with a due instant (odd microsecond residues)", "cronexpr defines the occurrences of a schedule"],
     },
+    "C13": {
+        "level": "exploration",
+        "build": "plain",
+        "tiers": tiers(9000, 90, 120000, 1200),
+        "rule": "a location preloaded with a canary fact and a canary rule; hostile inputs submitted as fact, rule, pattern (SearchFacts, SearchRules), event, "
+                "embedded rule (evaluate!) and query. World matrix: every (entry point, reserved key, wrong-typed value) triple on both states - 7 entry points x "
+                "25 reserved keys (rule, when, pattern, condition, action(s), schedule, expires, ttl, deleteWith, id, !p, trigger!, evaluate!, _id, locations, code, "
+                "endpoint, opts, policies, once, and, or, not, libraries) x 17 values (numbers, strings, booleans, null, empty and heterogeneous containers, "
+                "variable-looking strings, ??, inequality variables, property variables with siblings, bad dates), each at the top level and one level down - "
+                "enumerated completely in both tiers. World mutations: 1-3 stacked mutations incl. containers nested 10-5000 deep, 100 kB strings, dropped required "
+                "parts. After each input: a panic reaching the caller, a worker death (stack overflow), a real-time hang (lock left held) or a failing canary "
+                "operation (AddFact, GetFact, SearchFacts, ProcessEvent of the canary rule exactly once) is a violation. Non-trivial: every input; distinct = "
+                "distinct (entry point, input) pairs.",
+        "exhaustive_claim": False,
+        "components": {"real": REAL, "stub": STUB_COMMON + ["entry through core.Location (System and HTTP entry are exercised by C18/C17 worlds)"]},
+        "assumptions": ["well-formed JSON only (the statement's quantifier)"],
+    },
 }
